@@ -5,6 +5,10 @@
 import json, os, re, subprocess, sys, concurrent.futures as cf
 SEEDED = "/verif/seeded"
 EXTRA = {  # checks tried after the change's own property (first round: from the table in DESIGN.md 14)
+ "C01-r6m1": ["C02", "C03"], "C02-r6m1": ["C01", "C08"], "C02-r6m2": ["C14"], "C03-r6m1": ["C15", "C06"], "C03-r6m2": ["C01"], "C04-r6m1": ["C07"], "C04-r6m2": ["C05"],
+ "C06-r6m1": ["C16"], "C06-r6m2": ["C12"], "C07-r6m1": ["C10", "C09"], "C08-r6m1": ["C10"], "C08-r6m2": ["C10"], "C09-r6m2": ["C18", "C16"], "C10-r6m2": ["C04", "C15"],
+ "C11-r6m1": ["C12", "C01"], "C11-r6m2": ["C06"], "C12-r6m1": ["C10"], "C12-r6m2": ["C15"], "C13-r6m1": ["C09"], "C14-r6m1": ["C01"], "C16-r6m1": ["C09"], "C16-r6m2": ["C18"],
+ "C17-r6m1": ["C18", "C16"], "C17-r6m2": ["C18", "C19"], "C18-r6m1": ["C16"], "C19-r6m1": ["C18"],
  "C01-m2": ["C12"], "C02-m2": ["C12"], "C02-m1": ["C01", "C12"], "C04-m1": ["C07"], "C04-m2": ["C13"], "C05-m1": ["C07"], "C05-m2": ["C16"], "C06-m2": ["C11"],
  "C15-m1": ["C10", "C03"], "C15-m2": ["C06"], "C18-m2": ["C07"], "C13-m1": ["C13"],
  "C01-r2m1": ["C08"], "C02-r2m2": ["C08"], "C03-r2m2": ["C15"], "C04-r2m1": ["C07"], "C04-r2m2": ["C03"], "C05-r2m2": ["C19", "C17"], "C06-r2m1": ["C15"], "C06-r2m2": ["C13"],
